@@ -122,6 +122,10 @@ def run(R, tier):
     # with C09/R09.1)
     from . import c09
     c09.int_writers(R, "R11.8")
+    # R11.9 whole messages against ArrayVec<u8, N> for N around every write boundary of the expected response: what fits is byte for
+    # byte what the growable buffer holds, what does not fit fails with -225 at the unit that overflows (no later handler runs)
+    from . import msgtable as MT
+    MT.check(R, "R11.9", "capacity", tier, "Node::run on whole messages with the fixed-capacity formatter analysed in place (container operations by contract on a concrete buffer of capacity N): identical bytes when the response fits, OutOfMemory at the first write that does not, never a panic", 250)
 
     # ---- R11.5 no heap: direct census + build-graph witness --------------------------------------------------------
     n_alloc_calls = 0
